@@ -90,3 +90,15 @@ def tolist(x):
     a = numpy.asarray(x)
     if a.dtype.kind == 'c': return [str(v) for v in a.ravel().tolist()]
     return a.tolist()
+
+def reference_eval(e, vals):
+    """oracle value of an evaluable: the independent interpreter where it has denotations for every node, otherwise the
+    script generated WITHOUT simplification and optimisation passes (flagged 'self-referential' by callers)"""
+    from . import interp
+    import treelog
+    try:
+        return interp.denote(e, vals), 'interp'
+    except Unsupported as ex:
+        if 'interp: no denotation' not in str(ex): raise
+    with treelog.set(treelog.NullLog()):
+        return sym_compile(e, _simplify=False, _optimize=False)(vals), 'unoptimised-script'
